@@ -19,13 +19,6 @@ Proof.
   - split; discriminate.
 Qed.
 
-Lemma validate_programs_panic cfg : forall ps,
-  validate_programs cfg ps = VPanic -> In None ps.
-Proof.
-  induction ps as [|[p|] ps IH]; simpl; [discriminate | | auto].
-  destruct (program_ok cfg p); [auto | discriminate].
-Qed.
-
 Section Endpoint.
   Variable semver : bytes -> bool.
   Variable marshal : report -> bytes.
@@ -38,13 +31,6 @@ Section Endpoint.
     destruct (semver (r_config r)); simpl; [|split; discriminate].
     destruct (r_xzero r); simpl; [split; discriminate|].
     apply validate_programs_ok.
-  Qed.
-
-  Lemma validate_panic_null r : validate semver cfg r = VPanic -> In None (r_programs r).
-  Proof.
-    unfold validate. destruct (week_ok r); simpl; [|discriminate].
-    destruct (semver (r_config r)); simpl; [|discriminate].
-    destruct (r_xzero r); simpl; [discriminate|]. apply validate_programs_panic.
   Qed.
 
   Notation handle := (handle semver marshal cfg).
@@ -71,10 +57,9 @@ Section Endpoint.
 
   (* ... and with any other one *)
   Lemma handle_invalid method size_ok decoded m : valid_request method size_ok decoded = false ->
-    handle method size_ok decoded m =
-      (if beq method post && size_ok && null_program_reached semver cfg decoded then S5xx else S4xx, m).
+    handle method size_ok decoded m = (S4xx, m).
   Proof.
-    unfold Endpoint.valid_request, Endpoint.handle, null_program_reached. intro H.
+    unfold Endpoint.valid_request, Endpoint.handle. intro H.
     destruct (beq method post); simpl in *; [|reflexivity].
     destruct size_ok; simpl in *; [|reflexivity].
     destruct decoded as [r|]; [|reflexivity].
@@ -113,8 +98,7 @@ Section Endpoint.
       rewrite (handle_valid _ _ _ m Ev) in *.
       destruct (write m (components (object_name r)) (object_content marshal r)) as [[|] m']; simpl in *;
         [reflexivity | discriminate].
-    - rewrite (handle_invalid _ _ _ m Ev) in H. simpl in H.
-      destruct (beq method post && size_ok && null_program_reached semver cfg decoded); discriminate.
+    - rewrite (handle_invalid _ _ _ m Ev) in H. simpl in H. discriminate.
   Qed.
 
   (* ---------------------------------------------------- the upload bucket *)
@@ -190,33 +174,29 @@ Section Endpoint.
   Theorem handle_expected m method size_ok decoded :
     upload_store m ->
     (forall r, decoded = Some r -> g_string (r_xs r) = true) ->
-    null_program_reached semver cfg decoded = false ->
     handle method size_ok decoded m = expected method size_ok decoded m /\
     upload_store (snd (handle method size_ok decoded m)).
   Proof.
-    intros Hs Hx Hn. unfold Endpoint.expected.
+    intros Hs Hx. unfold Endpoint.expected.
     destruct (valid_request method size_ok decoded) eqn:Ev.
     - destruct (valid_request_inv _ _ _ Ev) as [_ [_ [r [-> _]]]].
       destruct (valid_upload_written m _ _ _ Hs Ev (Hx r eq_refl)) as [m' [Hw [Hh Hs']]].
       rewrite Hh, Hw. simpl. auto.
-    - rewrite (handle_invalid _ _ _ m Ev), Hn, andb_false_r. simpl.
-      destruct decoded; auto.
+    - rewrite (handle_invalid _ _ _ m Ev). destruct decoded; auto.
   Qed.
 
   Theorem never_5xx m method size_ok decoded :
     upload_store m ->
     (forall r, decoded = Some r -> g_string (r_xs r) = true) ->
-    null_program_reached semver cfg decoded = false ->
     fst (handle method size_ok decoded m) <> S5xx.
   Proof.
-    intros Hs Hx Hn. destruct (handle_expected m method size_ok decoded Hs Hx Hn) as [-> _].
+    intros Hs Hx. destruct (handle_expected m method size_ok decoded Hs Hx) as [-> _].
     unfold Endpoint.expected. destruct decoded; [destruct (valid_request method size_ok (Some r))|]; simpl; discriminate.
   Qed.
 
   Theorem stores_iff_valid m method size_ok decoded :
     upload_store m ->
     (forall r, decoded = Some r -> g_string (r_xs r) = true) ->
-    null_program_reached semver cfg decoded = false ->
     (fst (handle method size_ok decoded m) = S2xx <-> valid_request method size_ok decoded = true) /\
     (valid_request method size_ok decoded = true ->
        exists r, decoded = Some r /\
@@ -224,14 +204,14 @@ Section Endpoint.
     (valid_request method size_ok decoded = false ->
        fst (handle method size_ok decoded m) = S4xx /\ snd (handle method size_ok decoded m) = m).
   Proof.
-    intros Hs Hx Hn. split; [|split].
+    intros Hs Hx. split; [|split].
     - split.
       + intro H. destruct (ack_means_written _ _ _ _ H) as [r [_ [Hv _]]]. exact Hv.
       + intro Ev. destruct (valid_request_inv _ _ _ Ev) as [_ [_ [r [-> _]]]].
         destruct (valid_upload_written m _ _ _ Hs Ev (Hx r eq_refl)) as [m' [_ [Hh _]]]. rewrite Hh. reflexivity.
     - intro Ev. destruct (valid_request_inv _ _ _ Ev) as [_ [_ [r [-> _]]]]. exists r. split; [reflexivity|].
       destruct (valid_upload_written m _ _ _ Hs Ev (Hx r eq_refl)) as [m' [Hw [Hh _]]]. rewrite Hh. exact Hw.
-    - intro Ev. rewrite (handle_invalid _ _ _ m Ev), Hn, andb_false_r. simpl. auto.
+    - intro Ev. rewrite (handle_invalid _ _ _ m Ev). simpl. auto.
   Qed.
 
   (* the object is named by the report's week and X, inside the bucket *)
@@ -245,17 +225,16 @@ Section Endpoint.
 
   (* ------------------------------------------------- all request sequences *)
   Definition good_request (q : request) : Prop :=
-    (forall r, q_decoded q = Some r -> g_string (r_xs r) = true) /\
-    null_program_reached semver cfg (q_decoded q) = false.
+    forall r, q_decoded q = Some r -> g_string (r_xs r) = true.
 
   Theorem serve_never_5xx : forall qs m, upload_store m -> Forall good_request qs ->
     Forall (fun st => st <> S5xx) (fst (serve semver marshal cfg m qs)) /\
     upload_store (snd (serve semver marshal cfg m qs)).
   Proof.
     induction qs as [|q qs IH]; intros m Hs Hg; simpl; [auto|].
-    inversion Hg as [|q' qs' [Hx Hn] Hg']; subst.
-    pose proof (never_5xx m (q_method q) (q_size_ok q) (q_decoded q) Hs Hx Hn) as H5.
-    destruct (handle_expected m (q_method q) (q_size_ok q) (q_decoded q) Hs Hx Hn) as [_ Hs'].
+    inversion Hg as [|q' qs' Hx Hg']; subst.
+    pose proof (never_5xx m (q_method q) (q_size_ok q) (q_decoded q) Hs Hx) as H5.
+    destruct (handle_expected m (q_method q) (q_size_ok q) (q_decoded q) Hs Hx) as [_ Hs'].
     destruct (Model.Endpoint.handle semver marshal cfg (q_method q) (q_size_ok q) (q_decoded q) m) as [st m1]. simpl in *.
     destruct (IH m1 Hs' Hg') as [I1 I2].
     destruct (serve semver marshal cfg m1 qs) as [sts m2]. simpl in *. auto.
@@ -278,15 +257,15 @@ Section Endpoint.
   End Roundtrip.
 End Endpoint.
 
-(* the deviation: a null program entry is dereferenced *)
+(* the former deviation: a null program entry is now refused like any other
+   invalid report *)
 Definition null_report : report :=
   mkReport [50;48;50;52;45;48;49;45;48;49] [] false [48;46;53] [118;49] [None].
 Definition empty_config : config := mkConfig [] [] [] [].
 
-Lemma null_program_refuted :
-  handle (fun _ => true) (fun _ => []) empty_config post true (Some null_report) fs_init = (S5xx, fs_init) /\
-  valid_request (fun _ => true) empty_config post true (Some null_report) = false /\
-  null_program_reached (fun _ => true) empty_config (Some null_report) = true.
+Lemma null_program_example :
+  handle (fun _ => true) (fun _ => []) empty_config post true (Some null_report) fs_init = (S4xx, fs_init) /\
+  valid_request (fun _ => true) empty_config post true (Some null_report) = false.
 Proof. vm_compute. auto. Qed.
 
 (* non-vacuity: a valid upload into a fresh bucket *)
